@@ -212,12 +212,19 @@ macro_rules! impl_derivatives {
 
             #[inline]
             fn atan(&self) -> Self {
-                let rec = (T::one() + self.re.clone() * &self.re).recip();
+                // for |x| > 1 everything is formed from r = 1/x: x * x overflows to infinity (and inf * 0 = NaN
+                // in the higher derivatives) long before 1/x underflows.  With r = x resp. 1/x and
+                // den = 1 + r^2:  x/(1+x^2) = r/den  and  1/(1+x^2) = 1/den resp. r^2/den
+                let big = self.re.re().abs() > F::one();
+                let r = if big { self.re.recip() } else { self.re.clone() };
+                let den = T::one() + r.clone() * &r;
+                let rec = if big { r.clone() * &r / &den } else { den.recip() };
                 let f0 = self.re.atan();
                 let f1 = rec.clone();
                 second!($deriv, let two = F::one() + F::one(););
-                second!($deriv, let f2 = -self.re.clone() * &f1 * &rec * two;);
-                third!($deriv, let f3 = (self.re.clone() * &self.re * F::from(6.0).unwrap() - two) * &f1 * &rec * rec;);
+                second!($deriv, let xr = r / den;);
+                second!($deriv, let f2 = -xr.clone() * &rec * two;);
+                third!($deriv, let f3 = (xr.clone() * &xr * F::from(6.0).unwrap() - rec.clone() * &rec * two) * &f1;);
                 chain_rule!($deriv, Self::chain_rule(self, f0, f1, f2, f3))
             }
 
@@ -261,21 +268,31 @@ macro_rules! impl_derivatives {
 
             #[inline]
             fn asinh(&self) -> Self {
-                let rec = (T::one() + self.re.clone() * &self.re).recip();
+                // see atan: r = x resp. 1/x, den = 1 + r^2
+                let big = self.re.re().abs() > F::one();
+                let r = if big { self.re.recip() } else { self.re.clone() };
+                let den = T::one() + r.clone() * &r;
                 let f0 = self.re.asinh();
-                let f1 = rec.sqrt();
-                second!($deriv, let f2 = -self.re.clone() * &f1 * &rec;);
-                third!($deriv, let f3 = (self.re.clone() * &self.re * (F::one() + F::one()) - F::one()) * &f1 * &rec * rec;);
+                let f1 = if big { r.abs() / den.sqrt() } else { den.sqrt().recip() };
+                second!($deriv, let xr = r.clone() / &den;);
+                second!($deriv, let f2 = -xr.clone() * &f1;);
+                third!($deriv, let rec = if big { r * &xr } else { den.recip() };);
+                third!($deriv, let f3 = (xr.clone() * &xr * (F::one() + F::one()) - rec.clone() * &rec) * &f1;);
                 chain_rule!($deriv, Self::chain_rule(self, f0, f1, f2, f3))
             }
 
             #[inline]
             fn acosh(&self) -> Self {
-                let rec = (self.re.clone() * &self.re - F::one()).recip();
+                // see atan: r = x resp. 1/x (for x > 2), den = x^2 - 1 resp. 1 - r^2
+                let big = self.re.re() > F::one() + F::one();
+                let r = if big { self.re.recip() } else { self.re.clone() };
+                let den = if big { T::one() - r.clone() * &r } else { r.clone() * &r - F::one() };
                 let f0 = self.re.acosh();
-                let f1 = rec.sqrt();
-                second!($deriv, let f2 = -self.re.clone() * &f1 * &rec;);
-                third!($deriv, let f3 = (self.re.clone() * &self.re * (F::one() + F::one()) + F::one()) * &f1 * &rec * rec;);
+                let f1 = if big { r.clone() / den.sqrt() } else { den.sqrt().recip() };
+                second!($deriv, let xr = r.clone() / &den;);
+                second!($deriv, let f2 = -xr.clone() * &f1;);
+                third!($deriv, let rec = if big { r * &xr } else { den.recip() };);
+                third!($deriv, let f3 = (xr.clone() * &xr * (F::one() + F::one()) + rec.clone() * &rec) * &f1;);
                 chain_rule!($deriv, Self::chain_rule(self, f0, f1, f2, f3))
             }
 
